@@ -59,6 +59,10 @@ impl<M: Matcher> Replacer<M> {
         // See the giant comment in 'find_iter_at_in_context' below for why we
         // do this dance.
         let is_multi_line = searcher.multi_line_with_matcher(&matcher);
+        // As in 'find_iter_at_in_context': an empty match at the very end of
+        // an unterminated last line still belongs to the range.
+        let open_ended = range.end == haystack.len()
+            && !searcher.line_terminator().is_suffix(&haystack[..range.end]);
         if is_multi_line {
             if haystack[range.end..].len() >= MAX_LOOK_AHEAD {
                 haystack = &haystack[..range.end + MAX_LOOK_AHEAD];
@@ -82,6 +86,7 @@ impl<M: Matcher> Replacer<M> {
                 matcher,
                 haystack,
                 range.clone(),
+                open_ended,
                 caps,
                 dst,
                 |caps, dst| {
@@ -499,6 +504,11 @@ where
     // shouldn't be involved in this business in the first place. Sigh. Live
     // and learn. Abstraction boundaries are hard.
     let is_multi_line = searcher.multi_line_with_matcher(&matcher);
+    // When the range ends at the end of the haystack without a line
+    // terminator (i.e., the last line of the input is unterminated), then an
+    // empty match at the very end still belongs to the range.
+    let open_ended = range.end == bytes.len()
+        && !searcher.line_terminator().is_suffix(&bytes[..range.end]);
     if is_multi_line {
         if bytes[range.end..].len() >= MAX_LOOK_AHEAD {
             bytes = &bytes[..range.end + MAX_LOOK_AHEAD];
@@ -513,7 +523,9 @@ where
     }
     matcher
         .find_iter_at(bytes, range.start, |m| {
-            if m.start() >= range.end {
+            if m.start() > range.end
+                || (m.start() == range.end && !open_ended)
+            {
                 return false;
             }
             matched(m)
@@ -546,6 +558,7 @@ fn replace_with_captures_in_context<M, F>(
     matcher: M,
     bytes: &[u8],
     range: std::ops::Range<usize>,
+    open_ended: bool,
     caps: &mut M::Captures,
     dst: &mut Vec<u8>,
     mut append: F,
@@ -557,7 +570,8 @@ where
     let mut last_match = range.start;
     matcher.captures_iter_at(bytes, range.start, caps, |caps| {
         let m = caps.get(0).unwrap();
-        if m.start() >= range.end {
+        if m.start() > range.end || (m.start() == range.end && !open_ended)
+        {
             return false;
         }
         dst.extend(&bytes[last_match..m.start()]);
